@@ -1,10 +1,10 @@
-(* C17 — model of reamber/algorithms/generate/full_ln.py (with Map.stack and TimedList.from_dict as used there).
+(* C17 — model of reamber/algorithms/generate/full_ln.py (with Map.Stacker and TimedList.from_dict as used there).
    Definitions only.  Times (offset, length, gap, threshold) are integers: the algorithm only subtracts and
    compares them, and the harness scales every value of a case by the case's common denominator.
 
    def full_ln(m, gap, ln_as_hit_thres):
        m = m.deepcopy()
-       df = m.stack((HitList, HoldList))._stacked                 -> [stacked]
+       df = m.Stacker([m.hits, m.holds])._stacked                 -> [stacked]
        dfgs = df.loc[:, [offset, column, length]].sort_values([offset]).groupby(column)   -> [isort], [columns], [group]
        for _, dfg in dfgs:
            dfg[diff] = dfg[offset].diff().shift(-1)
@@ -35,15 +35,22 @@ Definition chart := list tlist.
 Definition slot_eqb (a b : slot) : bool :=
   match a, b with SHits, SHits | SHolds, SHolds | SOther, SOther => true | _, _ => false end.
 
-(* ---- Map.stack((HitList, HoldList)): concat of the frames of every list that is an instance of either class.
-   A HitList frame has no length column: concat fills NaN. *)
+(* ---- m.Stacker([m.hits, m.holds])._stacked: concat of the frames of m.hits and m.holds, in this order, whatever
+   other lists the chart has.  A HitList frame has no length column: concat fills NaN. *)
 Definition stack_rows (l : tlist) : list note :=
   match tl_class l with
   | CHit => map (fun n => mkNote (n_col n) (n_off n) None) (tl_notes l)
   | CHold => tl_notes l
   | CNone => []
   end.
-Definition stacked (m : chart) : list note := flat_map stack_rows m.
+Definition in_slot (s : slot) (m : chart) : list tlist := filter (fun l => slot_eqb (tl_slot l) s) m.
+Definition stacked (m : chart) : list note :=
+  flat_map stack_rows (in_slot SHits m) ++ flat_map stack_rows (in_slot SHolds m).
+
+(* OLD variant, before commit 2c338d8 of the tree under test: m.stack((HitList, HoldList)) collected every list that
+   is an instance of either class (StepMania mines, fakes, lifts, keysounds, rolls too).  Kept only to state what was
+   wrong with it (Props/C17.v, C17_old_by_type_count_refuted); the checked model is [stacked]. *)
+Definition stacked_old_by_type (m : chart) : list note := flat_map stack_rows m.
 
 (* ---- sort_values(["offset"]): pandas' default sort is not stable; the model uses the stable insertion sort and
    everything downstream is stated for any sorted permutation (see full_ln_sorted). *)
@@ -118,6 +125,8 @@ Definition full_ln_sorted (m : chart) (s : list note) (gap thr : Z) : option cha
   end.
 
 Definition full_ln (m : chart) (gap thr : Z) : option chart := full_ln_sorted m (isort (stacked m)) gap thr.
+Definition full_ln_old_by_type (m : chart) (gap thr : Z) : option chart :=
+  full_ln_sorted m (isort (stacked_old_by_type m)) gap thr.
 
 (* ---- admissible tie orders: the only freedom an unstable sort has that is visible in the result is which of
    the notes sharing the greatest offset of a column comes last (proved in Proofs/FullLNProofs.v) *)
